@@ -14,6 +14,8 @@ THEOREMS = [
     'IblVerif.C20.venn_conservation_defaults',
     'IblVerif.C20.venn_total',
     'IblVerif.C20.venn_chunk_exact',
+    'IblVerif.C20.venn_global_bins',
+    'IblVerif.C20.venn_chunk_invariant',
     'IblVerif.C20.stack_fold',
     'IblVerif.C20.stack_mismatch',
     'IblVerif.C20.svd_full_rank_allotment',
@@ -39,10 +41,21 @@ THEOREMS = [
     'IblVerif.C20.cadzow_full_rank',
     'IblVerif.C20.cadzow_plane_wave_rank_one',
     'IblVerif.C20.denoise_all_id',
+    'IblVerif.C20.lp_len_of_pad',
+    'IblVerif.C20.lpad_zero_iff',
+    'IblVerif.C20.savgol_index_ranges',
+    'IblVerif.C20.savgol_length',
+    'IblVerif.C20.smooth_interp_nodes',
+    'IblVerif.C20.np1_windows',
+    'IblVerif.C20.np1_weight_one',
+    'IblVerif.C20.np1_weight_one_hann',
+    'IblVerif.C20.np1_single_window_counterexample',
+    'IblVerif.C20.np1_single_window_hann',
+    'IblVerif.C20.np1_npad_counterexample',
 ]
 RULE = ('seven families, all seeded from ctx.rng. venn: 2-3 time-ordered sorters (1-40 spikes, occasionally empty or with a channel '
         'beyond the last bin), bin sizes 1-20 x 1-8, chunk sizes biased to 1, binsize+-1, max_sample(+1), half the span, > span and '
-        'the defaults (0); exact dictionary compare. stack: 1-24 traces, 1-4 samples, integer labels with repeats (sum and default '
+        'the defaults (0), and in ~18 % of the cases the LAST spike of one / several / all sorters planted exactly on a chunk boundary (k * chunk_size, chunk_size == last sample, one spike per sorter at sample 0); exact dictionary compare. stack: 1-24 traces, 1-4 samples, integer labels with repeats (sum and default '
         'nanmean, bit-exact) and length mismatches; svd plan: recorded (rows, rank) of every _svd_denoise call, plus the EXHAUSTIVE sweep of '
         'the rank each collection receives for all nc in 4..160 x all requested ranks 1..nc (single collection and two-way splits) against '
         'floor(rank*size/nc), and exact-rank data at random intermediate ranks on the real SVD. rolling_window: '
@@ -51,7 +64,14 @@ RULE = ('seven families, all seeded from ctx.rng. venn: 2-3 time-ordered sorters
         'NaN patterns for smooth_interpolate_savgol. cadzow: dense 1-4 x 4-40 layouts (permuted), checkerboard and random sparse '
         'layouts: shape/it/itr/trcount exact, denoise with cadzow.derank patched to an exact stand-in (imax, niter); real SVD: full '
         'rank, plane wave at rank 1, noise ratio. A case is non-trivial when it has >= 2 chunks or a shared bin (venn), a repeated '
-        'label (stack), wl >= 3 (rolling), a border and an interior point (savgol), >= 2 rows and columns (cadzow)')
+        'label (stack), wl >= 3 (rolling), a border and an interior point (savgol), >= 2 rows and columns (cadzow). '
+        'Added with the translator tie: venn-global (small trains, 2-3 chunk sizes that are whole multiples of the bin size — 1 bin, a few bins, '
+        'one chunk for everything — against the chunk-free model, exact); venn-chunks / sbinq (default bin size, default chunk size and number of '
+        'chunks observed through the bincount2D calls, max sample on / next to a chunk boundary); lpadq (lpad observed through the length handed to '
+        'ibldsp.fourier.lp, dyadic pads so that n*pad is exact); trajshape (all n < 48 / 160); np1-windows (cadzow_np1: ovx 2-16, nswx = 2 ovx + 0..ovx, '
+        '1-12 steps, the NP1 channel count with the documented window sets, a single window, off-grid lengths, nswx < 2 ovx, padding: windows handed to '
+        'denoise and the gain window of each, observed through a marker stand-in for denoise, exact / 1e-12) and np1-real (full rank of every window on the '
+        'real SVD, NP1 geometry)')
 ASSUMPTIONS = [
     'spike trains are time-ordered non-negative integer samples (np.searchsorted is meaningless otherwise); bin sizes, chunk size >= 1 after defaults; sizes small enough for the dense per-bin model (the direct oracle also runs realistic sizes)',
     'cadzow rank-1 / plane-wave claims only on dense rectangular layouts (every position of a regularly spaced grid occupied once; a sparse selection of rows is not one even when its ranks fill a rectangle); the NP1 checkerboard is exercised for the index maps and full rank only (DESIGN section 8)',
@@ -63,11 +83,16 @@ ASSUMPTIONS = [
     'lp: pad >= 0; the class lpad = ceil(n*pad) = 0 is a recorded finding (empty output) and is excluded from the length oracle only',
     'non_uniform_savgol with len(x) == window >= 3 raises UnboundLocalError: recorded finding, excluded from the reproduction oracle only',
     'labels of stack are integers and data are integer-valued float64 (sums exact, one IEEE division for nanmean); header=None',
+    'cadzow_np1 is demanded to return its input (full rank of every window) only on its documented domain: npad = 0, 2 <= ovx, 2 ovx <= nswx < ntr, ntr - nswx a multiple of nswx - ovx, even ns, fmax above Nyquist (frequencies from fmax on are zeroed by design), windows of equal trajectory shape on the NP1 geometry; three classes outside it are reported as findings, not demanded: a single window (ntr == nswx: the last ovx channels are faded out), npad > 0 (the window ending at the unpadded ntr gets no fade-out: weights up to 2), odd ns (irfft without n returns ns - 1 samples)',
+    'venn chunk-size independence is demanded (oracle) and proved only for chunk sizes that are whole multiples of samples_binsize: for other chunk sizes the bins of later chunks are shifted and the coincidence counts legitimately differ (conservation still holds and is demanded for every chunk size)',
+    'translator tie: float expressions of the source are read as exact rationals (lpad = ceil(n * num / den), default bin = floor(2 fs / 5000)); the IEEE evaluation is executed by the model and compared on every run (the two readings of lpad differ when fl(n * pad) is not exact, e.g. n = 25, pad = 0.28)',
 ]
 TRUSTED = [
     'np.unique / np.bincount / np.searchsorted / ravel_multi_index behave as documented (modelled by their contracts)',
     'np.linalg.svd returns U diag(s) Vh with orthonormal factors and non-increasing s >= 0 (SVDLaw); np.linalg.inv returns a left inverse (InvLaw); scipy interp1d passes through its nodes',
-    'cadzow.derank, voltage._svd_denoise and ibldsp.fourier.lp are patched in-process by exact stand-ins for the index/averaging comparisons (restored afterwards)',
+    'cadzow.derank, voltage._svd_denoise and ibldsp.fourier.lp are patched in-process by exact stand-ins for the index/averaging comparisons (restored afterwards); cadzow.denoise by a marker stand-in (windows / gain windows of cadzow_np1), iblutil bincount2D by a recording wrapper (default bin / chunk sizes)',
+    'translator tie (harness/pyfn2lean.py, harness/tiespecs/c20.py): the translator, its reading of float expressions as exact rationals, the per-item assumptions (truth value of `imax`), names declared free (loop variables, unpacked shapes)',
+    'scipy.signal.windows.hann(2 ovx - 1)[t] = 1/2 - 1/2 cos(2 pi t / (2 ovx - 2)) (closed form used by the theorem; compared to 1e-12 through the observed gain windows)',
 ]
 
 TOL_SAVGOL = 1e-8
@@ -252,22 +277,29 @@ def _close_result(a, b):
 
 
 def _interleave(heavy=False):
-    """Other calls into the library between two identical calls (each on its own fresh arguments)."""
+    """Other calls into the library between two identical calls (each on its own fresh arguments; a call that raises is
+    just another call: the judgement is on the surrounding oracle's own calls)."""
     from ibldsp import cadzow, fourier, smooth, utils, voltage
+
+    def attempt(f):
+        try:
+            f()
+        except Exception:
+            pass
     with _quiet(), np.errstate(all='ignore'):
         for n in (3, 4, 5, 8):
-            cadzow.traj_matrix_indices(n)
-            fourier.fscale(n)
-        smooth.rolling_window(np.arange(9.0), 5, 'hanning')
-        smooth.lp(np.arange(12.0), [0.1, 0.2])
-        fourier.lp(np.arange(16.0), 1, [0.1, 0.2])
-        fourier.hp(np.arange(16.0), 1, [0.1, 0.2])
-        utils.fcn_cosine([0.1, 0.2])(np.linspace(0, 1, 7))
+            attempt(lambda: cadzow.traj_matrix_indices(n))
+            attempt(lambda: fourier.fscale(n))
+        attempt(lambda: smooth.rolling_window(np.arange(9.0), 5, 'hanning'))
+        attempt(lambda: smooth.lp(np.arange(12.0), [0.1, 0.2]))
+        attempt(lambda: fourier.lp(np.arange(16.0), 1, [0.1, 0.2]))
+        attempt(lambda: fourier.hp(np.arange(16.0), 1, [0.1, 0.2]))
+        attempt(lambda: utils.fcn_cosine([0.1, 0.2])(np.linspace(0, 1, 7)))
         if heavy:       # ismember2d compiles a numba kernel on every call (~0.2 s): only around the cadzow calls
             xx, yy = np.array([0., 16., 0., 16., 0., 16.]), np.array([0., 0., 20., 20., 40., 40.])
-            cadzow.denoise(np.ones((6, 2), dtype=complex), xx, yy, 1)
-        voltage.svd_denoise_npx(np.arange(12.0).reshape(3, 4), rank=1)
-        voltage.stack(np.arange(6.0).reshape(3, 2), np.array([1, 0, 1]))
+            attempt(lambda: cadzow.denoise(np.ones((6, 2), dtype=complex), xx, yy, 1))
+        attempt(lambda: voltage.svd_denoise_npx(np.arange(12.0).reshape(3, 4), rank=1))
+        attempt(lambda: voltage.stack(np.arange(6.0).reshape(3, 2), np.array([1, 0, 1])))
 
 
 def _probe(a):
@@ -467,6 +499,22 @@ def _venn_case(rng, small=False):
     ck = int(rng.integers(0, 9))
     chunk = [1, sbin, sbin + 1, max(sbin - 1, 1), max(mx, 1), mx + 1, max(mx // 2, 1), int(rng.integers(1, 2 * span + 2)),
              int(rng.integers(2, 12))][ck]
+    plant = float(rng.random())
+    if plant < 0.18 and all(len(s_) for s_ in sorters):
+        # the LAST spike exactly on a chunk boundary (k * chunk_size, incl. sample 0 and chunk_size == last sample), for one,
+        # several or all sorters: the chunk that starts there holds nothing but these spikes
+        if plant < 0.03:
+            sorters = [[[0, int(s_[0][1])]] for s_ in sorters]                      # one spike per sorter, at sample 0
+        else:
+            edge = -(-mx // chunk) * chunk if plant < 0.14 else chunk               # first boundary >= every spike / exactly one chunk
+            edge = max(edge, mx if plant >= 0.14 else 0)
+            if plant >= 0.14 and mx > chunk:
+                chunk = max(mx, 1)
+                edge = chunk
+            who = [j for j in range(k) if rng.random() < 0.6] or [int(rng.integers(0, k))]
+            for j in who:
+                sorters[j][-1][0] = int(edge)
+        mx = max([p[0] for s_ in sorters for p in s_] + [0])
     fs = 30000
     if kind == 2 and not small:             # Python defaults: 0.4 ms bins, 20 s chunks (small fs keeps the model dense)
         fs = int(rng.choice([2500, 2600, 3000, 5000]))
@@ -515,6 +563,19 @@ def oracle_venn(case):
             return f'sorter {j}: regions containing it sum to {tot}, it has {len(s)} spikes ({ {a: int(b) for a, b in r.items()} })'
     if any(int(v) < 0 for v in r.values()):
         return 'negative region count'
+    if case.get('aligned') and case['sbin']:
+        # regardless of chunking: chunk sizes that are whole multiples of the bin size tile the same global bin grid
+        ref = None
+        for c in case['aligned']:
+            try:
+                d = {a: int(b) for a, b in _venn_real(dict(case, chunk=int(c) * case['sbin'])).items()}
+            except Exception as e:
+                return f'chunk_size={int(c) * case["sbin"]} raised {type(e).__name__}: {e}'
+            if ref is None:
+                ref = (int(c) * case['sbin'], d)
+            elif d != ref[1]:
+                return (f'chunk_size={ref[0]} gives {ref[1]} but chunk_size={int(c) * case["sbin"]} gives {d} '
+                        f'(both whole multiples of samples_binsize={case["sbin"]}: the same global bins)')
     return None
 
 
@@ -1224,6 +1285,153 @@ def oracle_svd(case):
     return None
 
 
+# ---------------------------------------------------------------------------------------------
+# cadzow_np1: channel windows and their gain windows
+# ---------------------------------------------------------------------------------------------
+def _np1_domain(c):
+    """The documented domain of cadzow_np1 on which the property is demanded: no padding, 2 <= ovx, 2 ovx <= nswx,
+    ntr - nswx a positive multiple of nswx - ovx (at least two windows)."""
+    ntr, nswx, ovx, npad = c['ntr'], c['nswx'], c['ovx'], c['npad']
+    return npad == 0 and ovx >= 2 and 2 * ovx <= nswx < ntr and (ntr - nswx) % (nswx - ovx) == 0
+
+
+def _np1_case(rng):
+    ovx = int(rng.choice([2, 2, 3, 4, 5, 8, 8, 16, int(rng.integers(2, 13))]))
+    nswx = 2 * ovx + int(rng.choice([0, 0, 0, 1, 2, 3, ovx, int(rng.integers(0, 9))]))
+    m = int(rng.choice([1, 1, 2, 3, 5, int(rng.integers(1, 12))]))
+    ntr = m * (nswx - ovx) + nswx
+    npad = 0
+    kind = int(rng.integers(0, 20))
+    if kind == 0:
+        ntr = nswx                                      # a single window (recorded finding; the model follows the code)
+    elif kind == 1:
+        ntr += int(rng.choice([-1, 1, 2, nswx - ovx - 1]))   # off the documented grid: one row short still fits the extra mirrored row
+    elif kind == 2:
+        nswx = max(2 * ovx - int(rng.integers(1, 4)), ovx)    # np.ones(negative) / division by zero
+    elif kind == 3:
+        npad = int(rng.integers(1, 6))                  # padding (recorded finding; the model follows the code)
+        ntr = max(ntr, npad + 2)
+    elif kind == 4:                                     # the Neuropixel 1 channel count with the documented window sets
+        ntr = 384
+        nswx, ovx = [(32, 16), (64, 32), (64, 24), (16, 8)][int(rng.integers(0, 4))]
+    return {'family': 'np1', 'ntr': int(ntr), 'nswx': int(nswx), 'ovx': int(ovx), 'npad': int(npad)}
+
+
+def _np1_real(case):
+    """What cadzow_np1 does with its channels, observed on the real code: `cadzow.denoise` is replaced by a recorder that
+    notes which rows it is given (identified by the x / y coordinates of the first row) and returns a marker (1 in frequency
+    column k for the k-th call), so that column k of the output spectrum IS the gain window of call k at its rows.
+    Returns 'err X' | None (denoise not reached although windows exist: not observable) | (windows, G[ntr, ncol])."""
+    from ibldsp import cadzow
+    ntr, nswx, ovx, npad = case['ntr'], case['nswx'], case['ovx'], case['npad']
+    x, y = np.arange(ntr, dtype=float), np.zeros(ntr)
+    xp = np.r_[np.flipud(x[1:npad + 1]), x, np.flipud(x[-npad - 2:-1])]
+    yp = np.r_[np.flipud(y[1:npad + 1]) - 120, y, np.flipud(y[-npad - 2:-1]) + 120]
+    key = {(a, b): i for i, (a, b) in enumerate(zip(xp.tolist(), yp.tolist()))}
+    ncol = (ntr + 2 * npad) // max(nswx - ovx, 1) + 4
+    ns = 2 * (ncol - 1)
+    calls = []
+
+    def rec(array, *a, **k):
+        xs = k['x'] if 'x' in k else a[0]
+        ys = k['y'] if 'y' in k else a[1]
+        calls.append((key.get((float(xs[0]), float(ys[0])), -1), int(array.shape[0])))
+        out = np.zeros_like(array)
+        out[:, (len(calls) - 1) % ncol] = 1
+        return out
+    try:
+        with _patched(cadzow, 'denoise', rec), _quiet(), np.errstate(all='ignore'):
+            out = cadzow.cadzow_np1(np.zeros((ntr, ns)), fs=30000, rank=1, h={'x': x, 'y': y}, ovx=ovx, nswx=nswx, npad=npad, fmax=1e9)
+    except Exception as e:
+        return _err(e)
+    if not calls:
+        return None
+    out = np.asarray(out, dtype=float)
+    if out.shape != (ntr, ns):
+        return f'shape {out.shape}'
+    return calls, np.fft.rfft(out, axis=1).real
+
+
+def _np1_compare(case, real, ans):
+    """(impl, model) canonical strings: 'ok' / 'ok' when windows agree exactly and every gain window agrees to 1e-12."""
+    if isinstance(real, str):        # an exception: only THAT the call is rejected is compared, never the exception type
+        return ('err' if real.startswith('err') else real), ('err' if ans.startswith('err') else ans[:60])
+    calls, G = real
+    if not ans.startswith('ok '):
+        return f'windows {calls}', ans[:60]
+    parts = dict(p.split('=', 1) for p in ans.split()[1:])
+    win = [] if parts['win'] == '-' else [w.split(',') for w in parts['win'].split(';')]
+    mwin = [(int(a), int(b) - int(a)) for a, b, _ in win]
+    if mwin != [(a, b) for a, b in calls]:
+        return f'windows {calls}', f'windows {mwin}'
+    gws = [] if parts['gw'] == '-' else [_dec(g) for g in parts['gw'].split(';')]
+    ntr, npad = case['ntr'], case['npad']
+    want = np.zeros_like(G)
+    for k, ((f, n), g) in enumerate(zip(mwin, gws)):
+        for t in range(n):
+            i = f + t - npad
+            if 0 <= i < ntr:
+                want[i, k % G.shape[1]] += g[t]
+    if not np.allclose(G, want, atol=1e-12, rtol=0):
+        i, k = np.unravel_index(int(np.argmax(np.abs(G - want))), G.shape)
+        return f'gain of window {int(k)} at channel {int(i)} = {float(G[i, k])!r}', f'{float(want[i, k])!r} (kind {win[k][2] if k < len(win) else "?"})'
+    w = _dec(parts['weights'])
+    if not np.allclose(G.sum(axis=1), w, atol=1e-12, rtol=0):
+        return 'weights ' + str(np.round(G.sum(axis=1), 6).tolist()[:8]), 'weights ' + str(np.round(w, 6).tolist()[:8])
+    return 'ok', 'ok'
+
+
+def _np1_header(ntr):
+    """The first `ntr` channels of the Neuropixel 1 geometry (4 columns, checkerboard)."""
+    import neuropixel
+    h = neuropixel.trace_header(version=1)
+    return {'x': np.asarray(h['x'][:ntr], dtype=float), 'y': np.asarray(h['y'][:ntr], dtype=float)}
+
+
+def oracle_np1(case):
+    """cadzow_np1 (trajectory-matrix rank reduction over sliding channel windows) returns its input when the requested rank
+    is the full rank of every window, on its documented domain (`_np1_domain`), all frequencies kept (fmax above Nyquist)."""
+    from ibldsp import cadzow
+    if not _np1_domain(case) or case['ntr'] > 384:
+        return None
+    ntr, nswx, ovx = case['ntr'], case['nswx'], case['ovx']
+    ns = int(case.get('ns', 8))
+    if ns % 2:
+        return None                      # odd ns: recorded finding (irfft without n), excluded exactly
+    h = _np1_header(ntr)
+    fulls = set()
+    for f in range(0, ntr - nswx + 1, nswx - ovx):
+        fulls.add(min(_shape({'x': h['x'][f:f + nswx].tolist(), 'y': h['y'][f:f + nswx].tolist()})))
+    if len(fulls) != 1:
+        return None                      # windows of different trajectory shapes have no common full rank
+    full = fulls.pop()
+    rng = np.random.default_rng(case.get('seed', 0))
+    wav = rng.standard_normal((ntr, ns))
+    desc = f'cadzow.cadzow_np1(wav[{ntr}, {ns}], fs=30000, rank={full}, h=NP1 header[:{ntr}], ovx={ovx}, nswx={nswx}, npad=0, fmax=30000)'
+    kw = dict(fs=30000, rank=full, h=h, ovx=ovx, nswx=nswx, npad=0, fmax=30000)
+    if case.get('purity', True):
+        out, prob = purity(desc, cadzow.cadzow_np1, (wav,), kw, names=('wav',))
+        if prob:
+            return prob
+        if isinstance(out, Exception):
+            return f'{desc} raised {type(out).__name__}: {out}'
+    else:
+        try:
+            with _quiet(), np.errstate(all='ignore'):
+                out = cadzow.cadzow_np1(wav, **kw)
+        except Exception as e:
+            return f'{desc} raised {type(e).__name__}: {e}'
+    out = np.asarray(out, dtype=float)
+    if out.shape != wav.shape:
+        return f'{desc}: output shape {out.shape} for an input of shape {wav.shape}'
+    if not np.allclose(out, wav, atol=TOL_ID * 10, rtol=0):
+        i = int(np.argmax(np.max(np.abs(out - wav), axis=1)))
+        return (f'{desc}: full rank of every window ({full}) but the output differs from the input by '
+                f'{float(np.max(np.abs(out - wav))):.3g} (largest on channel {i}: ratio out/in '
+                f'{float(np.dot(out[i], wav[i]) / np.dot(wav[i], wav[i])):.4f})')
+    return None
+
+
 def _seq(fn):
     """With call sequences on (default), every oracle first calls the function on other data of the same shapes (cadzow: on
     the geometry with x and y swapped); say so in the report, the wrong result may be a consequence of that earlier call."""
@@ -1238,7 +1446,7 @@ def _seq(fn):
 
 
 ORACLES = {'venn': oracle_venn, 'stack': oracle_stack, 'rolling': oracle_rolling, 'lp': oracle_lp, 'savgol': oracle_savgol,
-           'sinterp': oracle_sinterp, 'cadzow': oracle_cadzow, 'svd': oracle_svd}
+           'sinterp': oracle_sinterp, 'cadzow': oracle_cadzow, 'svd': oracle_svd, 'np1': oracle_np1}
 ORACLES = {k: _seq(v) for k, v in ORACLES.items()}
 
 
@@ -1317,6 +1525,28 @@ def correspondence(ctx):
             ctx.compare('venn-seq', dict(c2, op='venn-seq'), r or 'ok', 'ok', nontrivial=(nchunks >= 2),
                         tags=('venn-seq',) + _form_tags('venn', c2['form']))
 
+    # ---- chunk-free model (global bin grid) against the real code at several chunk sizes that are multiples of the bin size
+    for i in range(ctx.n(150, 1500)):
+        case = _venn_case(rng, small=True)
+        if not case['sbin']:
+            continue
+        mx = max([p[0] for s in case['sorters'] for p in s] + [0])
+        cs = sorted({1, int(rng.integers(1, 7)), mx // case['sbin'] + 1 + int(rng.integers(0, 3))})
+        impls = [_venn_impl(dict(case, chunk=c * case['sbin'])) for c in cs]
+
+        def fn(ans, case=case, cs=cs, impls=impls):
+            for c, impl in zip(cs, impls):
+                if impl.startswith('err') and ans.startswith('err'):
+                    impl = ans              # both reject the input: the exception type is not compared
+                ctx.compare('venn-global', dict(case, op='venn-global', chunk=c * case['sbin']), impl, ans, nontrivial=len(cs) >= 2,
+                            tags=('venn-global', 'venn-global_c=1' if c == 1 else 'venn-global_one_chunk' if c == cs[-1] else 'venn-global_c>1',
+                                  'venn-global_err' if impl.startswith('err') else 'venn-global_ok'))
+        sp = ' '.join(_il(x for p in s for x in p) for s in case['sorters'])
+        add(f"venng {case['sbin']} {case['cbin']} {case['fs']} {case['nch']} {sp}", fn)
+        if i % 10 == 0:
+            c2 = dict(case, aligned=cs, chunk=cs[0] * case['sbin'], purity=False)
+            r = oracle_venn(c2)
+            ctx.compare('venn-aligned', dict(c2, op='venn-aligned'), r or 'ok', 'ok', nontrivial=len(cs) >= 2, tags=('venn-aligned',))
     lap('venn real')
     # ---- stack, svd plan
     for i in range(ctx.n(400, 3000)):
@@ -1535,6 +1765,99 @@ def correspondence(ctx):
             add(line, fn)
 
     lap('cadzow index real')
+    # ---- the integer expressions the translator tie reads off the source, observed on the real code
+    from ibldsp import cadzow as _cz
+    for n in range(1, ctx.n(48, 160)):
+        try:
+            shp = _cz.traj_matrix_indices(n).shape
+            impl = f'ok {int(shp[0])} {int(shp[1])}'
+        except Exception as e:
+            impl = _err(e)
+        add(f'trajshape {n}', lambda ans, n=n, impl=impl: ctx.compare(
+            'trajshape', {'op': 'trajshape', 'n': n}, impl, ans, nontrivial=n >= 2, tags=('trajshape', 'trajshape_even' if n % 2 == 0 else 'trajshape_odd')))
+    # lpad of the real smooth.lp = (length handed to the frequency-domain filter - n) / 2, for pads that are exact in binary
+    for i in range(ctx.n(150, 1200)):
+        n = int(rng.integers(1, 90))
+        den = int(rng.choice([1, 2, 4, 8, 16, 64]))
+        num = int(rng.choice([0, 1, den, den + 1, int(rng.integers(0, 2 * den + 1))]))
+        seen = []
+
+        def spy(ts, si, b, axis=None, seen=seen):
+            seen.append(int(ts.shape[0]))
+            return ts
+        try:
+            with _patched(smooth.ft, 'lp', spy):
+                smooth.lp(np.arange(n, dtype=float), [0.1, 0.2], pad=num / den)
+            impl = f'ok {(seen[0] - n) // 2}' if seen and (seen[0] - n) % 2 == 0 else None
+        except Exception as e:
+            impl = _err(e)
+        if impl is None:
+            ctx.note('lpadq: the padded length is not observable through ibldsp.fourier.lp any more (skipped)')
+            break
+        add(f'lpadq {n} {num} {den}', lambda ans, n=n, num=num, den=den, impl=impl: ctx.compare(
+            'lpadq', {'op': 'lpadq', 'n': n, 'pad_num': num, 'pad_den': den}, impl, ans, nontrivial=num > 0,
+            tags=('lpadq', 'lpadq_pad=0' if num == 0 else 'lpadq_n*pad_integer' if (n * num) % den == 0 else 'lpadq_n*pad_fraction')))
+    # default bin size / chunk size / number of chunks of _spikes_venn, observed through the bincount2D calls
+    import iblutil.numerical as _inum
+    for i in range(ctx.n(40, 300)):
+        fs = int(rng.choice([2500, 2600, 3000, 5000, 7500, 30000, 30003, 12499, 12500, int(rng.integers(2500, 40000))]))
+        given = int(rng.integers(0, 3))           # 0: both defaults, 1: chunk given, 2: bin given
+        chunk = 0 if given != 1 else int(rng.integers(1, 4000))
+        sbin = 0 if given != 2 else int(rng.integers(1, 30))
+        C_ = chunk or 20 * fs
+        k_ = int(rng.integers(1, 4))
+        mx = int(rng.choice([k_ * C_ - 1, k_ * C_, k_ * C_ + 1, int(rng.integers(0, 3 * C_ + 2))]))       # chunk boundaries
+        if (mx // (chunk or 20 * fs) + 1) * ((chunk or 20 * fs) // max(sbin or (2 * fs) // 5000, 1)) > 400000:
+            mx = mx % (chunk or 20 * fs)             # keep the dense bin arrays small
+        seen = []
+        orig = _inum.bincount2D
+
+        def spy(x, y, xbin=0, ybin=0, xlim=None, ylim=None, weights=None, seen=seen, orig=orig):
+            seen.append((int(xbin), int(xlim[1])))
+            return orig(x, y, xbin, ybin, xlim, ylim, weights)
+        st = (np.array([0, mx]), np.array([mx]))
+        ct = (np.array([0, 0]), np.array([0]))
+        try:
+            with contextlib.ExitStack() as es:
+                if hasattr(spiketrains, 'bincount2D'):
+                    es.enter_context(_patched(spiketrains, 'bincount2D', spy))
+                es.enter_context(_patched(_inum, 'bincount2D', spy))
+                es.enter_context(_quiet())
+                spiketrains.spikes_venn2(st, ct, samples_binsize=sbin or None, channels_binsize=1, fs=fs, num_channels=1, chunk_size=chunk or None)
+        except Exception as e:
+            seen = _err(e)
+        if isinstance(seen, list) and (not seen or len(seen) % 2):
+            ctx.note('venn defaults: the bincount2D calls of _spikes_venn are not observable any more (skipped)')
+            break
+        if isinstance(seen, str):
+            ctx.compare('venn-chunks', {'op': 'venn-chunks', 'fs': fs, 'chunk': chunk, 'sbin': sbin, 'max_sample': mx}, seen, 'ok', tags=('venn-chunks',))
+            continue
+        eff_sbin, eff_chunk, nchunks = seen[0][0], seen[0][1], len(seen) // 2
+        if sbin == 0:
+            add(f'sbinq {fs}', lambda ans, fs=fs, v=eff_sbin: ctx.compare(
+                'sbinq', {'op': 'sbinq', 'fs': fs}, f'ok {v} {v}', ans, nontrivial=False, tags=('sbinq',)))
+        add(f'nchunks {mx} {eff_chunk} 0', lambda ans, fs=fs, chunk=chunk, mx=mx, nchunks=nchunks, eff_chunk=eff_chunk: ctx.compare(
+            'venn-chunks', {'op': 'venn-chunks', 'fs': fs, 'chunk': chunk, 'max_sample': mx},
+            f'ok {nchunks} {eff_chunk}', ans.rsplit(' ', 1)[0] + f' {chunk or 20 * fs}', nontrivial=nchunks >= 2,
+            tags=('venn-chunks', 'venn-chunks_default' if chunk == 0 else 'venn-chunks_given',
+                  'venn-chunks_boundary' if mx % eff_chunk in (0, eff_chunk - 1) else 'venn-chunks_inner')))
+    # cadzow_np1: which channel windows are de-ranked and with which gain window each is added back
+    np1_cases = []
+    for i in range(ctx.n(120, 900)):
+        case = _np1_case(rng)
+        if case['ntr'] == 384 and ctx.quick and i % 3:
+            case['ntr'] = case['nswx'] + 2 * (case['nswx'] - case['ovx'])
+        real = _np1_real(case)
+        if real is None:
+            ctx.note('cadzow_np1: cadzow.denoise is not reached through the module attribute any more: windows not observable (skipped)')
+            break
+        np1_cases.append(case)
+        add(f"np1 {case['ntr']} {case['nswx']} {case['ovx']} {case['npad']}", lambda ans, case=case, real=real: ctx.compare(
+            'np1-windows', dict(case, op='np1-windows'), *_np1_compare(case, real, ans), nontrivial=not isinstance(real, str) and len(real[0]) >= 2,
+            tags=('np1-windows', 'np1_err' if isinstance(real, str) else 'np1_domain' if _np1_domain(case) else
+                  'np1_single_window' if case['ntr'] == case['nswx'] else 'np1_npad' if case['npad'] else 'np1_off_grid',
+                  'np1_2ovx=nswx' if 2 * case['ovx'] == case['nswx'] else 'np1_2ovx<nswx' if 2 * case['ovx'] < case['nswx'] else 'np1_2ovx>nswx')))
+    lap('tie expressions / np1 windows real')
     # ---- run the model once
     answers = _lean_parallel(ctx, lines)
     lap('lean model batch')
@@ -1601,6 +1924,17 @@ def correspondence(ctx):
         r = oracle_svd(case)
         ctx.compare('svd-real', dict(case, op='svd-real'), r or 'ok', 'ok',
                     tags=('svd-real', 'svd_collections' if coll else 'svd_single', 'svd_1<rank<nc', 'svd_nc>=8') + _form_tags('svd', case['form']))
+    # cadzow_np1 on the real SVD: full rank of every window returns the input (documented domain)
+    dom = [c for c in np1_cases if _np1_domain(c) and (c['ntr'] - c['nswx']) // (c['nswx'] - c['ovx']) <= ctx.n(3, 9)]
+    seen_np1 = set()
+    for j, c in enumerate(dom):
+        keyc = (c['ntr'], c['nswx'], c['ovx'])
+        if keyc in seen_np1 or len(seen_np1) >= ctx.n(4, 16):
+            continue
+        seen_np1.add(keyc)
+        case = dict(c, ns=int(rng.choice([4, 6, 8, 16])), seed=int(rng.integers(0, 2 ** 31)), purity=bool(len(seen_np1) == 1))
+        r = oracle_np1(case)
+        ctx.compare('np1-real', dict(case, op='np1-real'), r or 'ok', 'ok', tags=('np1-real', f"np1-real_windows={(c['ntr'] - c['nswx']) // (c['nswx'] - c['ovx']) + 1}"))
     lap('svd/cadzow numeric')
     # calibration of the noise oracle, recorded every run
     from ibldsp import cadzow as cz
@@ -1642,10 +1976,18 @@ def _candidates(ctx):
         fam = {'venn': 'venn', 'stack': 'stack', 'rollen': 'rolling', 'rolling': 'rolling', 'lp': 'lp', 'lpad': 'lp', 'lp-real': 'lp',
                'savgol': 'savgol', 'savgol-poly': 'savgol', 'sinterp': 'sinterp', 'traj': 'cadzow', 'denoise-standin': 'cadzow',
                'cadzow-real': 'cadzow', 'derank-rank': 'cadzow', 'svdplan': 'svd', 'svd-real': 'svd', 'allot': 'svd',
-               'venn-seq': 'venn', 'stack-seq': 'stack', 'rolling-seq': 'rolling', 'sinterp-seq': 'sinterp'}.get(op)
+               'venn-seq': 'venn', 'stack-seq': 'stack', 'rolling-seq': 'rolling', 'sinterp-seq': 'sinterp',
+               'np1-windows': 'np1', 'np1-real': 'np1', 'lpadq': 'lp', 'venn-chunks': 'venn', 'sbinq': 'venn',
+               'venn-global': 'venn', 'venn-aligned': 'venn'}.get(op)
         if fam is None:
             continue
         c['family'] = fam
+        if op == 'lpadq':
+            c = {'family': 'lp', 'n': c['n'], 'pad': c['pad_num'] / c['pad_den']}
+        if op in ('venn-chunks', 'sbinq'):
+            mx = int(c.get('max_sample', 0))
+            c = {'family': 'venn', 'sorters': [[[0, 0], [mx, 0]], [[mx, 0]]], 'sbin': int(c.get('sbin', 0)), 'cbin': 1, 'fs': int(c['fs']),
+                 'nch': 1, 'chunk': int(c.get('chunk', 0))}
         if fam == 'lp' and 'n' not in c:
             c['n'] = len(c.get('x', [1, 2, 3]))
         if fam == 'svd' and 'rho' not in c:
@@ -1685,6 +2027,8 @@ def _candidates(ctx):
     for _ in range(12):
         out.append({'family': 'cadzow', 'layout': _layout(rng, 'dense', int(rng.integers(1, 4)), int(rng.integers(4, 9))), 'seed': 3,
                     'form': _draw_form(rng, 'cadzow')})
+    for (ntr, nswx, ovx) in ((12, 8, 4), (16, 8, 4), (14, 8, 2), (24, 16, 8), (20, 8, 2), (40, 16, 8), (26, 10, 2), (48, 32, 16)):
+        out.append({'family': 'np1', 'ntr': ntr, 'nswx': nswx, 'ovx': ovx, 'npad': 0, 'ns': 8, 'seed': 11, 'purity': False})
     # sweep of (nc, requested rank, collection): suspects by the rank each collection receives, confirmed by the data oracle
     out += _allot_suspects()
     for _ in range(200):                       # and an unfiltered sample of intermediate ranks
@@ -1700,6 +2044,11 @@ def _candidates(ctx):
             out.append({'family': 'lp', 'n': n, 'pad': pad})
     for _ in range(400):
         out.append(_venn_case(rng, small=True))
+    for _ in range(150):
+        c = _venn_case(rng, small=True)
+        if c['sbin']:
+            mx = max([p[0] for s_ in c['sorters'] for p in s_] + [0])
+            out.append(dict(c, aligned=[1, 2, mx // c['sbin'] + 1], chunk=c['sbin'], purity=False))
     for _ in range(300):
         out.append(_venn_case(rng))
     # realistic size with the default parameters (direct oracle only, no model)
@@ -1788,6 +2137,7 @@ def search(ctx, reasons):
                 'sinterp': 'smooth_interpolate_savgol fills NaN gaps with finite values and keeps the length',
                 'cadzow': 'cadzow.denoise returns its input at full rank and for one plane wave at rank 1, and reduces added noise',
                 'svd': 'svd_denoise_npx returns its input when rank >= rank of the data (overall rank shared between collections as floor(rank*size/nc)), and reduces added noise otherwise',
+                'np1': 'cadzow_np1 (trajectory-matrix rank reduction over sliding channel windows) returns its input when the requested rank is the full rank of every window (documented domain: ntr - nswx a multiple of nswx - ovx, no padding, even ns, all frequencies kept)',
             }[case['family']],
             'how': f"python: harness/props/c20.py ORACLES['{case['family']}'](input)  (./check C20 --replay <this file>)"}
 
@@ -1830,21 +2180,56 @@ def known_findings(ctx):
         st, _ = voltage.stack(np.array([[1], [2]], dtype=np.int16), np.array([0, 0]))
         return float(st[0, 0]) != 1.5
 
-    return {'lp-pad-zero': lp_pad_zero, 'savgol-window-equals-length': savgol_window_equals_length,
+    def np1_weights(ntr, nswx, ovx, npad, ns=8):
+        """Per-channel ratio output / input of cadzow_np1 with denoise replaced by the identity."""
+        from ibldsp import cadzow
+        wav = np.random.default_rng(1).standard_normal((ntr, ns))
+        h = {'x': np.arange(ntr, dtype=float), 'y': np.zeros(ntr)}
+        with _patched(cadzow, 'denoise', lambda array, *a, **k: array), _quiet():
+            out = cadzow.cadzow_np1(wav, fs=30000, rank=1, h=h, ovx=ovx, nswx=nswx, npad=npad, fmax=1e9)
+        return wav, np.asarray(out)
+
+    def cadzow_np1_single_window():
+        wav, out = np1_weights(16, 16, 8, 0)
+        return out.shape == wav.shape and bool(np.max(np.abs(out[-1])) < 1e-12 < np.max(np.abs(wav[-1])))
+
+    def cadzow_np1_npad():
+        wav, out = np1_weights(64, 16, 8, 4)
+        return out.shape == wav.shape and bool(np.max(np.abs(out[53] / wav[53])) > 1.01)
+
+    def cadzow_np1_odd_ns():
+        wav, out = np1_weights(64, 16, 8, 0, ns=9)
+        return out.shape != wav.shape
+
+    return {'cadzow-np1-single-window': cadzow_np1_single_window, 'cadzow-np1-npad': cadzow_np1_npad,
+            'cadzow-np1-odd-ns': cadzow_np1_odd_ns,
+            'lp-pad-zero': lp_pad_zero, 'savgol-window-equals-length': savgol_window_equals_length,
             'venn-narrow-int-chunk': venn_narrow_int_chunk, 'stack-int-mean-truncated': stack_int_mean_truncated}
 
 
 LEVEL_TEXT = ('Lean 4 theorems: Venn conservation for any number of sorters, any bin sizes and ANY chunk size (and the total / region validity / '
-              'chunk-membership laws); stack groups ascending, fold = multiplicity, rows = aggregates of exactly their traces; rolling_window and lp '
-              'length laws incl. Python banker\'s rounding, constants fixed (ℝ, and DC gain 1 over ZMod.dft); non-uniform Savitzky-Golay reproduces '
-              'every polynomial up to its order at interior and border points for any distinct abscissae (Vandermonde / normal equations, Mathlib), '
-              'also behind NaN gaps; truncated SVD returns T whenever r >= rank T, anti-diagonal averaging inverts the trajectory embedding on every '
-              'duplicate-free layout, a plane wave on a dense layout embeds as a rank-1 outer product; exact differential runs tie every index model '
-              'to the code. PARTIAL: "reduces added noise otherwise" and "NaN gaps are filled with finite values" are numeric oracle checks only')
+              'chunk-membership laws), and chunk-size INDEPENDENCE of the whole dictionary for chunk sizes that are multiples of the bin size (it equals a '
+              'chunk-free sum over the global bin grid); stack groups ascending, fold = multiplicity, rows = aggregates of exactly their traces; rolling_window and lp '
+              'length laws incl. Python banker\'s rounding (lp for every pad = num/den > 0 through lpad = ceil(n pad)), constants fixed (ℝ, and DC gain 1 over ZMod.dft); '
+              'non-uniform Savitzky-Golay reproduces every polynomial up to its order at interior and border points for any distinct abscissae (Vandermonde / normal '
+              'equations, Mathlib), its three loops partition the samples and never index outside the arrays, also behind NaN gaps (good indices strictly increasing = '
+              'exactly the non-NaN positions); truncated SVD returns T whenever r >= rank T, anti-diagonal averaging inverts the trajectory embedding on every '
+              'duplicate-free layout, a plane wave on a dense layout embeds as a rank-1 outer product; cadzow_np1: on its documented domain the channel windows cover '
+              'every channel, stay inside the recording and their Hann gain windows add up to exactly 1 on every channel for every ntr / nswx / ovx (so full rank '
+              'returns the input), with counterexample theorems for a single window and for padding. Translator tie (Tie/C20.lean, regenerated from the source on every '
+              'run): lpad, half window, trajectory-matrix shape, imax, number / end of the cadzow_np1 windows, default bin size, number of chunks and chunk offset are '
+              'proved equal to the model definitions for all arguments. Exact differential runs tie every index model to the code. PARTIAL: "reduces added noise '
+              'otherwise" and "NaN gaps are filled with finite values" are numeric oracle checks only')
 LEVEL_NOTE = ('partial: noise reduction (energy ratio < 1, measured each run) and finiteness of interp1d output are not theorems. Trusted: Lean kernel + '
               'Mathlib; LAPACK SVD / inv and scipy interp1d as parameters with stated laws (SVDLaw, InvLaw, interpolation through nodes); np.unique / '
-              'bincount / searchsorted contracts; in-process stand-ins for derank, _svd_denoise and ft.lp during the index comparisons. Two defects of '
-              'the code are carried as excluding hypotheses with counterexample theorems: lp with lpad = 0 returns an empty array; non_uniform_savgol '
-              'with len(x) == window >= 3 raises UnboundLocalError')
-TECHNIQUE = ('Lean 4 proofs (list induction, omega; Mathlib: Vandermonde, nonsingular inverse, matrix rank, polynomial composition, ZMod.dft) over '
-             'executable models that transcribe the Python; exact and tolerance-bounded differential correspondence; direct oracles for the numeric claims (partial)')
+              'bincount / searchsorted contracts; scipy hann = its closed form (compared to 1e-12); in-process stand-ins for derank, _svd_denoise, ft.lp, cadzow.denoise '
+              'during the index comparisons; the source-to-Lean translator and its exact-rational reading of float expressions (the IEEE evaluation of lpad and of the '
+              'default bin size is executed and compared, not proved). Only compared, not tied by the translator (outside its subset): the crop of rolling_window / lp '
+              '(slice bounds inside a return), every loop of non_uniform_savgol (range with an explicit step), the chunk loop of _spikes_venn (tqdm), the window loop of '
+              'cadzow_np1 and its first / last / middle choice, the per-collection rank of svd_denoise_npx. Defects of the code carried as excluding hypotheses with '
+              'counterexample theorems: lp with lpad = 0 returns an empty array; non_uniform_savgol with len(x) == window >= 3 raises UnboundLocalError; cadzow_np1 '
+              'with a single window fades out its last ovx channels, with npad > 0 double-counts the channels before the window that ends at ntr (and with odd ns '
+              'returns ns - 1 samples: demonstrated, outside the model)')
+TECHNIQUE = ('Lean 4 proofs (list induction, omega; Mathlib: Vandermonde, nonsingular inverse, matrix rank, polynomial composition, ZMod.dft, Finset sums, '
+             'Real.cos_pi_sub) over executable models that transcribe the Python; a source-to-Lean translator tie for the integer expressions (re-proved against the '
+             'current source text on every run); exact and tolerance-bounded differential correspondence; direct oracles for the numeric claims (partial)')
